@@ -66,6 +66,8 @@ def theta_grid(family, quick):
         axes.append([g[0], g[-1]] if quick and len(g) > 2 else g)
         if quick and r in ("shape", "delta", "kappa"):
             axes[-1] = [g[0], g[2]]
+        if quick and 0.0 in g and 0.0 not in axes[-1]:
+            axes[-1] = sorted(axes[-1] + [0.0])  # exactly 0 is falsy in python: always part of the grid
     for vals in itertools.product(*axes):
         yield dict(zip(names, vals))
 
